@@ -36,7 +36,9 @@ def _pair(job):
     from . import floor_tracer as T
     tid, what, cfg, seed, arg = job
     if what == 'sameseed':
-        a, ea = T.run_cfg(tid, cfg, seed)
+        # default device names (they contain the asset id), so that nothing but the ids differs between the runs
+        cfg = dict(cfg, noname=True)
+        a, ea = T.run_cfg(tid, cfg, seed, id_offset=100000)
         b, eb = T.run_cfg(tid, cfg, seed, id_offset=arg)
         la = [{'ev': x['ev'], 'st': x['st']} for x in a]
         lb = [{'ev': x['ev'], 'st': x['st']} for x in b]
@@ -91,7 +93,7 @@ def _pipeline(tier):
     cfgs = cfgs[:T['ncfg']]
     jobs = []
     for c in cfgs:
-        jobs.append((len(jobs) + 1, 'sameseed', c, C.seed() * 31 + c['cid'], rng.choice([1, 7, 1000])))
+        jobs.append((len(jobs) + 1, 'sameseed', c, C.seed() * 31 + c['cid'], rng.choice([7, 8, 9, 97, 98, 99, 998, 9998])))
         H = c['horizon']
         cuts = sorted(set(rng.sample(range(1, H), rng.choice([1, 2]))))
         jobs.append((len(jobs) + 1, 'split', c, C.seed() * 31 + c['cid'], cuts))
